@@ -44,7 +44,8 @@ fn cfg_of(d: &FnDesc) -> Cfg {
 #[derive(Clone, Debug)]
 enum Op {
     /// `err`: the body (if it runs) returns Err with a unique value (Result functions only)
-    Call { f: usize, slot: u32, err: bool, stale: bool },
+    /// `big`: the body returns a value whose size alone exceeds max_memory (never cached)
+    Call { f: usize, slot: u32, err: bool, stale: bool, big: bool },
     InvWith { f: usize, slots: Vec<u32> },
     InvAllWith { pairs: Vec<(usize, Vec<u32>)> },
     Group { kind: u8, name: String },
@@ -56,7 +57,7 @@ enum Op {
 }
 fn op_json(o: &Op) -> Value {
     match o {
-        Op::Call { f, slot, err, stale } => json!({"call": f, "slot": slot, "err": err, "stale": stale}),
+        Op::Call { f, slot, err, stale, big } => json!({"call": f, "slot": slot, "err": err, "stale": stale, "big": big}),
         Op::InvWith { f, slots } => json!({"invalidate_with": f, "slots": slots}),
         Op::InvAllWith { pairs } => json!({"invalidate_all_with": pairs}),
         Op::Group { kind, name } => {
@@ -120,7 +121,7 @@ fn pick_functions(rng: &mut Rng, focus: &str) -> Vec<&'static FnDesc> {
             "C03" => !d.scope_thread && d.ttl.is_none() && d.max_memory.is_none(),
             "C01" => !d.scope_thread,
             "C13" => !d.scope_thread && d.ttl.is_none() && d.max_memory.is_none(),
-            "C09" => !d.scope_thread && d.is_result && d.limit.is_none() && d.ttl.is_none() && d.max_memory.is_none(),
+            "C09" => !d.scope_thread && d.is_result && d.ttl.is_none() && d.max_memory.is_none(),
             "C07" => !d.scope_thread && d.limit.is_some() && d.ttl.is_none() && d.max_memory.is_none() && matches!(d.policy, "fifo" | "lru"),
             "C08" => !d.scope_thread && d.limit.is_some() && d.ttl.is_none() && d.max_memory.is_none() && matches!(d.policy, "lfu" | "arc" | "tlru"),
             "C17" | "C16" => !d.scope_thread && (d.limit.is_some() || d.ttl.is_some() || d.max_memory.is_some()),
@@ -246,7 +247,8 @@ fn gen_scenario(seed: u64, index: u64, focus: &str, jitter: bool) -> Scenario {
             let err = fns[f].d.is_result && rng.chance(1, 3);
             // invalidate_on verdict scripted per call (only functions that have one consult it)
             let stale = fns[f].d.has_invalidate_on && rng.chance(1, 3);
-            p.push(Op::Call { f, slot, err, stale });
+            let big = !err && fns[f].d.max_memory.is_some() && fns[f].d.sized && rng.chance(1, 7);
+            p.push(Op::Call { f, slot, err, stale, big });
         }
         progs.push(p);
     }
@@ -258,20 +260,20 @@ fn gen_scenario(seed: u64, index: u64, focus: &str, jitter: bool) -> Scenario {
             let t = fns[fi].d.ttl.unwrap() as i64;
             let ss: Vec<u32> = fns[fi].slots.iter().copied().take(1 + rng.usize(2)).collect();
             for s in &ss {
-                prelude.push(Op::Call { f: fi, slot: *s, err: false, stale: false });
+                prelude.push(Op::Call { f: fi, slot: *s, err: false, stale: false, big: false });
             }
             prelude.push(Op::Advance(t * 1_000_000_000));
             // the threads only look keys up (no invalidation that would wipe the evidence)
             for p in progs.iter_mut() {
                 let extra = rng.usize(3);
                 let is_res = fns[fi].d.is_result;
-                let mut q: Vec<Op> = ss.iter().map(|s| Op::Call { f: fi, slot: *s, err: is_res && rng.chance(1, 2), stale: false }).collect();
+                let mut q: Vec<Op> = ss.iter().map(|s| Op::Call { f: fi, slot: *s, err: is_res && rng.chance(1, 2), stale: false, big: false }).collect();
                 if rng.chance(1, 2) {
                     q.reverse();
                 }
                 for _ in 0..extra {
                     let s = fns[fi].slots[rng.usize(fns[fi].slots.len())];
-                    q.push(Op::Call { f: fi, slot: s, err: false, stale: false });
+                    q.push(Op::Call { f: fi, slot: s, err: false, stale: false, big: false });
                 }
                 *p = q;
             }
@@ -299,7 +301,7 @@ fn gen_scenario(seed: u64, index: u64, focus: &str, jitter: bool) -> Scenario {
             let s = fns[ci].slots[0];
             if !progs[owner].is_empty() {
                 let at = rng.usize(progs[owner].len().min(3));
-                progs[owner][at] = Op::Call { f: ci, slot: s, err: false, stale: false };
+                progs[owner][at] = Op::Call { f: ci, slot: s, err: false, stale: false, big: false };
             }
         }
     }
@@ -342,7 +344,7 @@ fn exec_prog(t: usize, prog: &[Op], fns: &[(&'static FnDesc, BTreeMap<u32, Strin
     for op in prog {
         lockmon::yield_here();
         match op {
-            Op::Call { f, slot, err, stale } => {
+            Op::Call { f, slot, err, stale, big } => {
                 let d = fns[*f].0;
                 vhooks::take_log();
                 vhooks::disarm_exec();
@@ -350,6 +352,9 @@ fn exec_prog(t: usize, prog: &[Op], fns: &[(&'static FnDesc, BTreeMap<u32, Strin
                 let serial = vhooks::stamp() | (1 << 62);
                 if *err {
                     vhooks::arm_exec(vhooks::ExecPlan { value: Some(serial), ok: false, len: None });
+                } else if *big && !unique {
+                    // deterministic value, but too large to be cached at all
+                    vhooks::arm_exec(vhooks::ExecPlan { value: None, ok: true, len: Some(d.max_memory.unwrap_or(0) + 40) });
                 } else if unique {
                     // every execution returns its own value: a served value identifies the store it came from
                     vhooks::arm_exec(vhooks::ExecPlan { value: Some(serial), ok: true, len: None });
